@@ -1,7 +1,9 @@
 (** Judge for C12: parsimony reconstruction is optimal.
     case (character variant):
        ((kind acr) (tree T) (states ((tip state) ...)) (algo downpass|deltran|acctran|none)
-        [(tree2 T2) (i n)])                 T2 = T re-rooted at pre-order node i
+        [(tree2 T2) (i n)] [(rr T) (seed n) (nraw n)])
+                                            T2 = T re-rooted at pre-order node i; rr = randomResolve, the
+                                            observation then carries (raw (int63 ...)), the recorded stream
     obs:   ((err msg) (steps n) (map ((key states) ...)) (tree T') (audit (...))
             [(rerooted ((err ..) (steps ..) (map ..) (tree ..) (audit ..)))])
     case (sequence variant):
@@ -10,7 +12,7 @@
             [(sites (obs-of-the-character-variant-at-site-j ...))])                          *)
 From Coq Require Import String Ascii ZArith QArith Bool Arith List.
 From GT Require Import Base.Sexp Base.UTree Base.Codec Spec.Obs Spec.Parsimony
-     Model.Reroot Model.Parsimony Judge.Common.
+     Model.Reroot Model.Rand Model.Parsimony Model.ParsimonyRand Judge.Common.
 Import ListNotations.
 Local Close Scope Q_scope.
 Local Open Scope string_scope.
@@ -48,7 +50,7 @@ Definition set_eqb (a b : list nat) : bool := subset a b && subset b a.
       per node in pre-order) against the specification *)
 Definition n_inner (t : utree) : nat := length (filter (fun n => negb (is_leaf n)) (nodes t)).
 
-Definition oracle_char (k : nat) (ts : string -> list nat) (t : utree) (a : algo)
+Definition oracle_char (rr : bool) (k : nat) (ts : string -> list nat) (t : utree) (a : algo)
            (gsteps : nat) (gsets : list (list nat)) : option string :=
   let ns := nodes t in
   if negb (Nat.eqb (length gsets) (length ns)) then Some "wrong number of annotated nodes" else
@@ -78,6 +80,10 @@ Definition oracle_char (k : nat) (ts : string -> list nat) (t : utree) (a : algo
                | _ =>
                  if negb (forallb (fun x => Nat.eqb (nth x tot (S m)) m) gs)
                  then Some ("node " ++ string_of_nat i ++ ": a reported state occurs in no most-parsimonious reconstruction")
+                 else if rr then
+                        (* random resolution: exactly one state at every inner node *)
+                        (if Nat.eqb (length gs) 1 then None
+                         else Some ("node " ++ string_of_nat i ++ ": random resolution left " ++ string_of_nat (length gs) ++ " states"))
                  else match a with
                       | Downpass =>
                         if forallb (fun x => negb (Nat.eqb (nth x tot (S m)) m) || mem x gs) (seq 0 k) then None
@@ -87,9 +93,13 @@ Definition oracle_char (k : nat) (ts : string -> list nat) (t : utree) (a : algo
                end
              end) zipped in
   let unamb_check :=
-      match a with
-      | NoPass => None
-      | _ =>
+      match a, rr with
+      | NoPass, _ => None
+      (* with random resolution the property only speaks of ... nothing; the model proves ACCTRAN
+         optimal for every choice, DOWNPASS and DELTRAN are refuted (independent choices) *)
+      | Downpass, true => None
+      | Deltran, true => None
+      | _, _ =>
         if forallb (fun gs => Nat.eqb (length gs) 1) gsets
         then let l := fst (ltree_of t (map (fun gs => hd 0 gs) gsets)) in
              if Nat.eqb (cost ts t l) m then None
@@ -122,13 +132,18 @@ Inductive outcome : Type :=
 | OBad (m : string) | OCorr (m : string) | OOracle (m : string) | OOk (steps : nat) (err : bool).
 
 (** one run of ParsimonyAcr: [t] the input, [o] the observation *)
-Definition judge_acr_run (t : utree) (m : list (string * string)) (a : algo) (o : sexp) : outcome :=
+Definition judge_acr_run (rr : bool) (raw : list N) (t : utree) (m : list (string * string)) (a : algo) (o : sexp) : outcome :=
   match get_string "err" o, get_nat "steps" o, get_tree "tree" o, (x <- get "map" o ;; dec_pairs x) with
   | Some gerr, Some gsteps, Some g, Some gmap =>
     match audit_ok o with
     | Some msg => OOracle msg
     | None =>
-      match parsimony_acr t m a with
+      match (if rr then match parsimony_acr_r (list N) draw_raw t m a raw with
+                        | Ok (r, rest) => match rest with
+                                          | [] => Err "INTERNAL: recorded random stream too short"
+                                          | _ => Ok r end
+                        | Err e => Err e end
+             else parsimony_acr t m a) with
       | Err msg =>
         if String.eqb gerr msg then OOk 0 true
         else OCorr ("model refuses (" ++ msg ++ "), implementation says: " ++ gerr)
@@ -152,7 +167,7 @@ Definition judge_acr_run (t : utree) (m : list (string * string)) (a : algo) (o 
                              | _ => None end) (nodes g) with
         | None => OOracle "a node does not carry exactly one comment made of known states"
         | Some gsets =>
-          match oracle_char (length alpha) ts t a gsteps gsets with
+          match oracle_char rr (length alpha) ts t a gsteps gsets with
           | Some msg => OOracle msg
           | None => OOk gsteps false
           end
@@ -168,26 +183,28 @@ Definition algo_name (a : algo) : string :=
 Definition judge_acr (c o : sexp) : verdict :=
   match get_tree "tree" c, (x <- get "states" c ;; dec_pairs x), (x <- get_string "algo" c ;; dec_algo x) with
   | Some t, Some m, Some a =>
-    match judge_acr_run t m a o with
+    let rr := match get_bool "rr" c with Some b => b | None => false end in
+    let raw := match (x <- get "raw" o ;; dec_list dec_N x) with Some l => l | None => [] end in
+    match judge_acr_run rr raw t m a o with
     | OBad msg => VBad msg
     | OCorr msg => VCorr msg
     | OOracle msg => VOracle msg
     | OOk steps iserr =>
       match get "tree2" c with
-      | None => VOk (Nat.ltb 0 steps) (algo_name a ++ (if iserr then ":err" else ""))
+      | None => VOk (Nat.ltb 0 steps) (algo_name a ++ (if rr then ":rr" else "") ++ (if iserr then ":err" else ""))
       | Some t2s =>
         match dec_utree t2s, get_nat "i" c, get "rerooted" o with
         | Some t2, Some i, Some o2 =>
           match reroot t i with
           | Ok t2' =>
             if negb (utree_eqb t2 t2') then VBad "tree2 is not the tree re-rooted at node i" else
-            match judge_acr_run t2 m a o2 with
+            match judge_acr_run rr raw t2 m a o2 with
             | OBad msg => VBad ("rerooted: " ++ msg)
             | OCorr msg => VCorr ("rerooted: " ++ msg)
             | OOracle msg => VOracle ("rerooted: " ++ msg)
             | OOk steps2 iserr2 =>
               if negb (Bool.eqb iserr iserr2) then VOracle "an error on one rooting only"
-              else if Nat.eqb steps steps2 then VOk (Nat.ltb 0 steps) (algo_name a ++ ":rerooted")
+              else if Nat.eqb steps steps2 then VOk (Nat.ltb 0 steps) (algo_name a ++ (if rr then ":rr" else "") ++ ":rerooted")
               else VOracle ("steps " ++ string_of_nat steps ++ " but " ++ string_of_nat steps2
                             ++ " after re-rooting at node " ++ string_of_nat i)
             end
@@ -239,7 +256,14 @@ Definition judge_asr (c o : sexp) : verdict :=
       | Some msg => VOracle msg
       | None =>
         if negb (Nat.eqb galpha 1) then VBad "the alignment was not read as nucleotides" else
-        match parsimony_asr t aln a with
+        let rr := match get_bool "rr" c with Some b => b | None => false end in
+        let raw := match (x <- get "raw" o ;; dec_list dec_N x) with Some l => l | None => [] end in
+        match (if rr then match parsimony_asr_r (list N) draw_raw t aln a raw with
+                          | Ok (r, rest) => match rest with
+                                            | [] => Err "INTERNAL: recorded random stream too short"
+                                            | _ => Ok r end
+                          | Err e => Err e end
+               else parsimony_asr t aln a) with
         | Err msg =>
           if String.eqb gerr msg then VOk false (algo_name a ++ ":asr:err")
           else VCorr ("model refuses (" ++ msg ++ "), implementation says: " ++ gerr)
@@ -268,7 +292,7 @@ Definition judge_asr (c o : sexp) : verdict :=
                        let ts := fun n => match lookup n aln with
                                           | Some s => match string_nth j s with Some ch => nt_set ch | None => [] end
                                           | None => [] end in
-                       match oracle_char 6 ts t a st gsets with
+                       match oracle_char rr 6 ts t a st gsets with
                        | Some msg => Some ("site " ++ string_of_nat j ++ ": " ++ msg)
                        | None => None
                        end)
@@ -278,7 +302,7 @@ Definition judge_asr (c o : sexp) : verdict :=
             | None =>
               (* site-by-site agreement with the character variant (both are Go's outputs) *)
               match get "sites" o with
-              | None => VOk (existsb (Nat.ltb 0) gsteps) (algo_name a ++ ":asr")
+              | None => VOk (existsb (Nat.ltb 0) gsteps) (algo_name a ++ ":asr" ++ (if rr then ":rr" else ""))
               | Some ss =>
                 match list_of ss with
                 | None => VBad "sites"
